@@ -146,8 +146,9 @@ Theorem C12_rt_write_message U hc cenc cdec qerr newref (m : msg U) :
     forall rest, drun (read_message U hc cdec qerr newref) (w ++ rest) = MOk (m, rest).
 Proof. exact (rt_read_message U hc cenc cdec qerr newref m). Qed.
 
-(** PipeResult{Id, Message, Error}: Message valid (recursively), Error nil or a *vivid.Error whose code is
-    non-zero and registered and whose text is non-empty (or equal to the registered text) *)
+(** PipeResult{Id, Message, Error}, wire = bool(Message != nil) [message] Id code text: Message valid
+    (recursively), Error nil or a *vivid.Error whose code is non-zero and registered and whose text is
+    non-empty (or equal to the registered text) *)
 Theorem C12_rt_PipeResult U hc cenc cdec qerr newref id (m : msg U) e :
   ty_msg U m -> ty_perr e ->
   len32 id -> valid_msg U hc cenc cdec qerr newref m -> fits U hc cenc m ->
@@ -161,6 +162,19 @@ Theorem C12_rt_PipeResult U hc cenc cdec qerr newref id (m : msg U) e :
     forall rest fuel, (length (b ++ rest) < fuel)%nat ->
       drun (dec_body U hc cdec qerr newref fuel K_PipeResult) (b ++ rest) = MOk (M_PipeResult id m e, rest).
 Proof. exact (fun Tm Te Hid Vm Fm Ve => rt_registered U hc cenc cdec qerr newref (M_PipeResult id m e) K_PipeResult eq_refl (conj Tm Te) (conj Hid (conj Vm (conj Fm Ve)))). Qed.
+(** a failure result — Message nil — round-trips as well *)
+Theorem C12_rt_PipeResult_nil_message U hc cenc cdec qerr newref id e :
+  ty_perr e -> len32 id ->
+  match e with
+  | PENil => True
+  | PEVivid c t => c <> 0%Z /\ len32 t /\ exists reg, qerr c = Some reg /\ (t <> [] \/ t = reg)
+  | PEOther _ => False
+  | PETypedNil => False
+  end ->
+  exists b, enc_body U hc cenc (M_PipeResultNil id e) = MOk b /\
+    forall rest fuel, (length (b ++ rest) < fuel)%nat ->
+      drun (dec_body U hc cdec qerr newref fuel K_PipeResult) (b ++ rest) = MOk (M_PipeResultNil id e, rest).
+Proof. exact (fun Te Hid Ve => rt_registered U hc cenc cdec qerr newref (M_PipeResultNil id e) K_PipeResult eq_refl Te (conj Hid Ve)). Qed.
 Theorem C12_rt_SchedulerMessage U hc cenc cdec qerr newref ref (m : msg U) :
   ty_msg U m -> len32 ref -> valid_msg U hc cenc cdec qerr newref m -> fits U hc cenc m ->
   exists b, enc_body U hc cenc (M_Scheduler ref m) = MOk b /\
@@ -208,6 +222,18 @@ Theorem C12_handshake addr rest :
   N.of_nat (length addr) <= 4096 -> drun dec_handshake (enc_handshake addr ++ rest) = MOk (addr, rest).
 Proof. exact (handshake_rt addr rest). Qed.
 
+(** * history independence.  In the functional model an encode is a function of the value only, so the
+    statement is immediate; the real encoders draw their Writers from a sync.Pool, and that a failed
+    encode leaves nothing behind in a pooled Writer (sticky error, partial bytes) is DECIDED ON THE
+    IMPLEMENTATION: the harness runs histories of failing encodes of every kind interleaved with valid
+    ones on the pooled paths and requires the isolated result (monitor encode-after-failed-encode) *)
+Theorem C12_encode_history_independent U hc cenc (pre : list (msg U)) (v : msg U) d :
+  List.last (map (write_message U hc cenc) (pre ++ [v])) d = write_message U hc cenc v.
+Proof. exact (last_of_history (write_message U hc cenc) pre v d). Qed.
+Theorem C12_envelope_history_independent U hc cenc (pre : list (envelope U)) (e : envelope U) d :
+  List.last (map (enc_envelope U hc cenc) (pre ++ [e])) d = enc_envelope U hc cenc e.
+Proof. exact (last_of_history (enc_envelope U hc cenc) pre e d). Qed.
+
 (** * the excluded values, one theorem each *)
 (** the zero time.Time (and every instant outside 1677-09-21 .. 2262-04-11) wraps in UnixNano *)
 Theorem C12_Pong_zero_time_refuted :
@@ -239,10 +265,7 @@ Theorem C12_PipeResult_foreign_error_refuted :
 Proof. exact pipe_foreign_error_retyped. Qed.
 Theorem C12_PipeResult_typed_nil_error_refuted : perr_wire PETypedNil = MErr MERecovered.
 Proof. exact eq_refl. Qed.
-(** a nil Message (no Codec configured) is an encode error *)
-Theorem C12_PipeResult_nil_message_refuted u id e :
-  enc_body wU false w_cenc (M_PipeResult id (M_Outside u) e) = MErr MENoCodec.
-Proof. exact (pipe_nil_message_error u id e). Qed.
+(** SchedulerMessage: a nil Message (no Codec configured) is an encode error *)
 Theorem C12_SchedulerMessage_nil_message_refuted u ref :
   enc_body wU false w_cenc (M_Scheduler ref (M_Outside u)) = MErr MENoCodec.
 Proof. exact (scheduler_nil_message_error u ref). Qed.
@@ -382,6 +405,7 @@ Print Assumptions C12_rt_universe.
 Print Assumptions C12_rt_deserialize.
 Print Assumptions C12_rt_write_message.
 Print Assumptions C12_rt_PipeResult.
+Print Assumptions C12_rt_PipeResult_nil_message.
 Print Assumptions C12_rt_SchedulerMessage.
 Print Assumptions C12_rt_clusterSingletonForwardedMessage.
 Print Assumptions C12_rt_outside.
@@ -389,6 +413,8 @@ Print Assumptions C12_envelope.
 Print Assumptions C12_envelope_refs.
 Print Assumptions C12_envelope_absent.
 Print Assumptions C12_handshake.
+Print Assumptions C12_encode_history_independent.
+Print Assumptions C12_envelope_history_independent.
 Print Assumptions C12_Pong_zero_time_refuted.
 Print Assumptions C12_PingMessage_zero_time_refuted.
 Print Assumptions C12_PongMessage_zero_time_refuted.
@@ -398,7 +424,6 @@ Print Assumptions C12_PipeResult_error_unregistered_refuted.
 Print Assumptions C12_PipeResult_error_empty_text_refuted.
 Print Assumptions C12_PipeResult_foreign_error_refuted.
 Print Assumptions C12_PipeResult_typed_nil_error_refuted.
-Print Assumptions C12_PipeResult_nil_message_refuted.
 Print Assumptions C12_SchedulerMessage_nil_message_refuted.
 Print Assumptions C12_NodeState_generation_refuted.
 Print Assumptions C12_NodeState_status_refuted.
